@@ -26,6 +26,19 @@ func headNumberAndHash(reader db.KeyValueReader) (uint64, *felt.Felt, error) {
 	return height, blockHash, nil
 }
 
+// headStateRoot returns the state commitment recorded in the chain head's header, or
+// the zero root when no block has been stored yet.
+func headStateRoot(reader db.KeyValueReader) (*felt.Felt, error) {
+	height, err := core.GetChainHeight(reader)
+	if err != nil {
+		if errors.Is(err, db.ErrKeyNotFound) {
+			return &felt.Zero, nil
+		}
+		return nil, err
+	}
+	return core.GetGlobalStateRootByBlockNumber(reader, height)
+}
+
 // verifyBlockSuccession checks that the block follows the current chain head.
 func verifyBlockSuccession(reader db.KeyValueReader, block *core.Block) error {
 	if err := core.CheckBlockVersion(block.ProtocolVersion); err != nil {
